@@ -26,8 +26,11 @@ def spec(tier, seed):
         inst.append(apply_inst("c20", n, sh, ls, f, d, ["mono", "lowest"], "C20 F vs F+1 on equal copies; C02b lowest level first", mem_gb=6))
     for (n, sh, ls, f, d) in ch2:
         inst.append(apply_inst("c20", n, sh, ls, f, d, ["mono"], "C20 two hunks, N=2", mem_gb=14, timeout=2400))
+    from . import _mir
     return {
         "instances": inst,
+        "mir_vcs": [{"name": "apply_modify: offset and frozen line handed from one hunk to the next", "function": "apply_modify", "target": "lib",
+                     "run": lambda f, v, w: _mir.vc_apply_bookkeeping(f, v, w)}],
         "level": "model_checking",
         "functions": ["TextFilePatch::apply", "apply_modify (fuzz-level loop 0..=min(F, max_useable_fuzz))", "Hunk::max_useable_fuzz", "try_apply_hunk", "HunkView::new"],
         "symbolic": "every file-line and hunk-line byte (all equality patterns); stated lines are enumerated by the instance matrix",
@@ -37,3 +40,8 @@ def spec(tier, seed):
         "explanation": "the same file patch is applied at F and F+1 on equal copies: ok at F implies ok at F+1 with identical per-hunk (line, offset, fuzz) and identical content; "
                        "additionally the recorded fuzz of the first hunk is the least level at which the reference placement finds a position",
     }
+
+
+def replay_candidate(v, work, log):
+    from .. import replay
+    return replay.replay_by_sweep("C20", v, work, log)
